@@ -546,6 +546,14 @@ class ExprMixin(Core):
             return self.ok(BM(v, attr), st)
         # the path condition usually pins the receiver's class: then the access is one accessor,
         # not an if-chain over every class that has a field of this name (keeps terms small)
+        possible = st.ghost.get(("in", t.get_id()))
+        if possible:
+            # the subject is known to be one of a few classes: drop the alternatives that cannot apply
+            kept = [(r, val) for r, val in alts if r.decl().params()[0].name() in possible]
+            if kept:
+                alts = kept
+                if len(alts) == 1:
+                    return self.ok(T("V", alts[0][1]), st)
         known = st.ghost.get(("is", t.get_id()))
         if known is not None:
             for r, val in alts:
@@ -562,6 +570,11 @@ class ExprMixin(Core):
                     return self.ok(T("V", val), st)
         if st.mode == "code":
             self.oblige(st, f"safety:attr:{attr}", z3.Or(*[r for r, _ in alts]), ast.unparse(node) if node else attr)
+        if possible and all(r.decl().params()[0].name() in possible for r, _ in alts) and len(alts) == len(possible):
+            term = alts[-1][1]  # the listed classes are exhaustive: no fall-back symbol needed
+            for r, val in reversed(alts[:-1]):
+                term = z3.If(r, val, term)
+            return self.ok(T("V", term), st)
         f = self.uf("attr_" + attr, self.V, self.V)
         term = f(t)
         for r, val in reversed(alts):
@@ -707,7 +720,7 @@ class ExprMixin(Core):
     def progression_seq(self, base_seq, lo, stp, cnt, hi=None):
         """fresh Seq V r with len cnt and r[j] == base_seq[lo + j*stp] (quantified, pattern r[j])"""
         r = z3.Const(fresh_name("slice"), self.U.SeqV)
-        j = z3.Int(fresh_name("sj"))
+        j = z3.Int("sj!")
         self.axioms.append(z3.Length(r) == cnt)
         body = r[j] == base_seq[self.prog_at(lo, stp, j)]
         if hi is not None:
@@ -791,15 +804,18 @@ class ExprMixin(Core):
                 raise Unsupported("comprehension element forks")
             v, s2 = oks[0]
             extra = [c for c in s2.pc[len(s_el.pc):]]
-            if extra:
-                raise Unsupported("comprehension element adds path conditions")
             vt = self.box(v)
-            r = z3.Const(fresh_name("comp"), self.U.SeqV)
-            jj = z3.Int(fresh_name("cq"))
-            self.axioms.append(z3.Length(r) == n)
-            body = z3.substitute(vt, (j, jj))
-            self.axioms.append(self.forall([jj], z3.Implies(z3.And(0 <= jj, jj < n), r[jj] == body), [r[jj]]))
-            out = self.ok(T("list", r), s)
+            jj = z3.Int("cq!")
+            # facts the element evaluation established for an arbitrary position hold for every position; they
+            # were derived under this path's condition, so they extend THIS path's condition (not the global axioms)
+            gen_facts = [self.forall([jj], z3.Implies(z3.And(0 <= jj, jj < n), z3.substitute(c, (j, jj)))) for c in extra]
+            r = self.map_symbol(vt, it, j, n)
+            if r is None:
+                r = z3.Const(fresh_name("comp"), self.U.SeqV)
+                self.axioms.append(z3.Length(r) == n)
+                body = z3.substitute(vt, (j, jj))
+                self.axioms.append(self.forall([jj], z3.Implies(z3.And(0 <= jj, jj < n), r[jj] == body), [r[jj]]))
+            out = self.ok(T("list", r), s.fork(*gen_facts))
             for e, s3 in raises:
                 # some element raises: the comprehension raises that exception
                 out.append((RAISE, e, s.fork(*s3.pc[len(s.pc):])))
@@ -808,6 +824,33 @@ class ExprMixin(Core):
             return out
 
         return self.bind(self.ev(gen.iter, st), k)
+
+    def map_symbol(self, vt, it, j, n):
+        """[G(x, c...) for x in S] where G is a spec function and the spec library defines the prefix-recursive
+        `map_<G>(S, c..., k)`: use that very symbol, so that code and spec build the SAME sequence term
+        (z3 has no usable sequence extensionality)"""
+        if it.kind != "seq" or not z3.is_app(vt):
+            return None
+        name = vt.decl().name()
+        if not name.startswith("spec_"):
+            return None
+        g = "map_" + name[5:]
+        if g not in self.speclib.funcs:
+            return None
+        args = [vt.arg(k) for k in range(vt.num_args())]
+        elem = it.parts[0][j]
+        if not args or not args[0].eq(elem):
+            return None
+        from .specs import _has_var  # noqa: F401
+
+        for a in args[1:]:
+            if _mentions(a, j):
+                return None
+        ps, ret = self.speclib.kinds(g)
+        if len(ps) != len(args) + 1:
+            return None
+        call = [T("list", it.parts[0])] + [T(k, a) for (_, k), a in zip(ps[1:-1], args[1:])] + [T("int", n)]
+        return self.speclib.apply(g, call).t
 
     # ---------------- lambda / starred -----------------
     def ev_Starred(self, node, st):
@@ -820,3 +863,17 @@ class Rec:
     def __init__(self, cls):
         self.cls = cls
         self.fields = {}
+
+
+def _mentions(t, c):
+    stack, seen = [t], set()
+    while stack:
+        x = stack.pop()
+        if x.get_id() in seen:
+            continue
+        seen.add(x.get_id())
+        if x.eq(c):
+            return True
+        if z3.is_app(x):
+            stack.extend(x.children())
+    return False
